@@ -68,6 +68,19 @@ pub fn install_logger(level: log::LevelFilter, keep: bool) {
     LOGGER.keep.store(keep, std::sync::atomic::Ordering::Relaxed);
 }
 
+/// Log level by shard for the monitors whose verdict does not depend on it: most shards at
+/// Warn (cheap), one in four at Trace and one at Debug, so that log arguments (which the `log`
+/// macros evaluate only when the level admits the record) are evaluated somewhere
+pub fn install_shard_logger(shard: u64, out: &mut crate::out::Out) {
+    let (lvl, name) = match shard % 4 {
+        1 => (log::LevelFilter::Trace, "Trace"),
+        2 => (log::LevelFilter::Debug, "Debug"),
+        _ => (log::LevelFilter::Warn, "Warn"),
+    };
+    install_logger(lvl, false);
+    out.obs(&format!("shards_at_log_level_{}", name), 1);
+}
+
 pub fn take_logs() -> Vec<LogRec> {
     std::mem::take(&mut *LOGGER.recs.lock().unwrap())
 }
